@@ -52,6 +52,17 @@ sys.exit(1 if bad else 0)
 '''
 
 
+def time_parts_summary(ex, sec, py, pmo, pd, ph, pmi, ps):
+    """stand-in for digital_rf_get_time_parts when it does its own calendar arithmetic (no libc gmtime): the breakdown is decided on its own
+    (C03.own_calendar_obligation, run by this check as well); here it behaves like the gmtime stub -- fields are functions of the second"""
+    rid = ex.new_region('secarg'); ex.store(Ptr(rid), sec)
+    tmp = ex.stubs['@gmtime'](ex, Ptr(rid))
+    tm = ex.mem[tmp.region]['cells']
+    for p_, (j, off) in zip((py, pmo, pd, ph, pmi, ps), ((5, 1900), (4, 1), (3, 0), (2, 0), (1, 0), (0, 0))):
+        ex.store(p_, tm[(j,)] + off)
+    return 0
+
+
 def kernel_obligations(mod, stubs, cfg, st, timeout, inline=False):
     """cfg: dict n,d,sc,fc (int or None=symbolic), tlo, thi (time range in seconds).  Returns (results, witness_case, paths, ex)"""
     res = []   # (name, verdict 'unsat'|'sat'|'unknown', model_case|None, dt)
@@ -142,7 +153,10 @@ def kernel_obligations(mod, stubs, cfg, st, timeout, inline=False):
                 r, m = smt.solve(pc, extra, 30, st)
                 if r == 'sat': info.setdefault('bwit', []).append(mk(m))
 
-    ex = Exec(mod, stubs, summaries={} if inline else kernels.TIME_SUMMARIES)       # inline: the real kernels are executed, not their specs
+    summ = {} if inline else dict(kernels.TIME_SUMMARIES)       # inline: the real kernels are executed, not their specs
+    from checks import C03
+    if C03.has_own_calendar(mod): summ['@digital_rf_get_time_parts'] = time_parts_summary
+    ex = Exec(mod, stubs, summaries=summ)
     ex.explore('@digital_rf_get_subdir_file', setup, on_path)
     return res, info, ex
 
@@ -337,6 +351,10 @@ def main(tier):
                 rep.ob('%s: %s' % (tag, nm), 'inconclusive', detail='solver unknown')
         return allok, names
 
+    from checks import C03
+    if C03.has_own_calendar(mod):
+        # the calendar breakdown used for the subdirectory name is the code's own arithmetic: decided here exactly as in C03
+        C03.own_calendar_obligation(rep, mod, stubs, st, tier)
     # ---- 0. the two time kernels are replaced by their specifications only if those are re-proved on this IR now
     kp = kernels.prove_time_kernels(mod, stubs, st, 60)
     nk = len(kp['floor']) + len(kp['ceil'])
